@@ -53,6 +53,9 @@ class HarnessError(Exception):
     pass
 
 
+_INSTRUMENTED = {}
+
+
 # ----------------------------------------------------------------------------- tools
 
 def ensure_tools():
@@ -141,7 +144,12 @@ def build_unit(pid, unit, sdir):
         env = goenv()
         if ins.get("skip_files"):
             env["VPREP_SKIP"] = ",".join(ins["skip_files"])
-        rc, out = run([ensure_tools(), imod] + ins["patterns"], env=env)
+        # a package is instrumented once per scratch tree, however many units name it
+        pats = [p for p in ins["patterns"] if (imod, p) not in _INSTRUMENTED.setdefault(sdir, set())]
+        if not pats:
+            continue
+        _INSTRUMENTED[sdir].update((imod, p) for p in pats)
+        rc, out = run([ensure_tools(), imod] + pats, env=env)
         if rc != 0:
             raise HarnessError("instrumenter failed on %s %s:\n%s" % (imod, ins["patterns"], out))
     binp = os.path.join(sdir, "bin", unit["name"] + ".test")
@@ -230,12 +238,12 @@ def run_job(pid, unit, binp, pkgdir, job, tier, sdir, deadline, replay=None):
             "status": status, "wall": time.time() - t0}
 
 
-RACE_FRAME = re.compile(r"^  ([^\s(]+)\(\)\n\s+(\S+?):(\d+)", re.M)
+RACE_FRAME = re.compile(r"^\s+(\S+)\(\)\n\s+(\S+?):(\d+)", re.M)
 
 
 def race_key(tail, sdir):
     """Stable key for a race report: the innermost repository frames of the two conflicting accesses."""
-    blocks = re.split(r"\n\n", tail[tail.find("WARNING: DATA RACE"):])
+    blocks = re.split(r"\n\s*\n", tail[tail.find("WARNING: DATA RACE"):])
     sites = []
     for b in blocks[:2]:
         site = None
